@@ -1,4 +1,124 @@
+/-
+  C07 — definitions are pure textual substitution, independent of their order.
+
+  Model: `Crs.Parser.Vars.define`, `closeVars`, `applyVars`, `expandDefinitions` (parser.go: Parse,
+  expandDefinitions) with the iteration orders of the Go map as explicit parameters.
+
+  Proved here: what a definition line contributes (nothing), which definition of a name counts (the first),
+  that text without reference syntax is untouched, that a single definition is plain `ReplaceAll`, and that for
+  definitions whose values carry no reference syntax the order of the two map loops is irrelevant as long as no
+  substitution creates a reference (`C07_flat_order_free_partial`). NOT proved: order independence for nested
+  definitions (closure of the first loop for every visiting order). That part of the property is covered by the
+  correspondence (Go's own random map order varies between executions; model uses definition order) and by the
+  permutation oracle on the implementation.
+-/
 import Crs.Parser
+import CrsProofs.Lines
 namespace Crs.Props
-theorem C07_placeholder : True := trivial
+open Crs Crs.Pat Crs.Parser
+
+/-! ### replaceAll -/
+
+theorem replaceAllAux_nil_needle_absent (old new : Bytes) (s : Bytes)
+    (h : ∀ t, t <:+ s → old.isPrefixOf t = false ∨ old = []) : replaceAllAux old new 0 s = s := by
+  induction s with
+  | nil => simp [replaceAllAux]
+  | cons c cs ih =>
+    rw [replaceAllAux]
+    have h0 := h (c :: cs) (List.suffix_refl _)
+    have : (old.isPrefixOf (c :: cs) && !old.isEmpty) = false := by
+      rcases h0 with h0 | h0
+      · simp [h0]
+      · simp [h0]
+    rw [this]
+    simp only [Bool.false_eq_true, if_false]
+    rw [ih (fun t ht => h t (ht.trans (List.suffix_cons c cs)))]
+
+/-- the needle occurs nowhere: at no suffix of the text is it a prefix -/
+def Absent (needle s : Bytes) : Prop := ∀ t, t <:+ s → needle.isPrefixOf t = false
+
+theorem replaceAll_absent (s old new : Bytes) (h : Absent old s) : replaceAll s old new = s :=
+  replaceAllAux_nil_needle_absent old new s (fun t ht => Or.inl (h t ht))
+
+/-- **C07 (undefined names stay literal / no reference, no change).** Text in which `{{name}}` does not occur
+    for any defined name is returned unchanged by the substitution loop, whatever the iteration order. -/
+theorem C07_unreferenced_unchanged (ord : List Bytes) (vs : Vars) (src : Bytes)
+    (h : ∀ n ∈ ord, Absent (refOf n) src) : applyVars ord vs src = src := by
+  unfold applyVars
+  induction ord with
+  | nil => rfl
+  | cons n ns ih =>
+    simp only [List.foldl_cons]
+    have : applyStep vs src n = src := by
+      unfold applyStep
+      cases assocLookup n vs with
+      | none => rfl
+      | some r => exact replaceAll_absent src (refOf n) r (h n (by simp))
+    rw [this]
+    exact ih (fun m hm => h m (by simp [hm]))
+
+/-- **C07 (first definition wins).** -/
+theorem C07_first_definition_wins (vs : Vars) (n v v' : Bytes) :
+    assocLookup n ((vs.define n v).define n v') = assocLookup n (vs.define n v) := by
+  unfold Vars.define
+  cases h : assocLookup n vs with
+  | some x => simp [h]
+  | none =>
+    have : assocLookup n (vs ++ [(n, v)]) = some v := by
+      induction vs with
+      | nil => simp [assocLookup]
+      | cons p ps ih =>
+        obtain ⟨k, w⟩ := p
+        simp only [assocLookup] at h ⊢
+        simp only [List.cons_append, assocLookup]
+        split at h
+        · simp at h
+        · rename_i hk; simp only [hk, if_false]; exact ih h
+    simp [h, this]
+
+/-- **C07 (definition lines contribute no entry).** A definition line adds its pair to the definitions and nothing
+    to the text. -/
+theorem C07_definition_no_entry (fs : Fs) (o1 o2 : Ord) (fuel : Nat) (st : PState) (line n v : Bytes) (rest : List Bytes)
+    (hnb : isBlank (trimLeftSpTab line) = false) (hnc : comment? (trimLeftSpTab line) = false)
+    (hd : definition? (trimLeftSpTab line) = some (n, v)) :
+    parseLines fs o1 o2 fuel st (line :: rest) = parseLines fs o1 o2 fuel { st with vars := st.vars.define n v } rest := by
+  simp only [parseLines, hnb, hnc, hd, Bool.false_eq_true, if_false]
+
+/-- **C07 (a single definition is `ReplaceAll`).** With one definition whose value does not mention its own
+    name, every reference is replaced by the value as typed — in any of the (one) iteration orders. -/
+theorem C07_single_definition (n v src : Bytes) (hself : Absent (refOf n) v) :
+    expandDefinitions [n] [n] src [(n, v)] = (replaceAll src (refOf n) v, [(n, v)]) := by
+  simp [expandDefinitions, closeVars, applyVars, closeStep, applyStep, assocLookup, replaceAll_absent v (refOf n) v hself]
+
+/-- for definitions that mention no defined name, the first loop changes nothing, in any order -/
+theorem C07_closeVars_flat (ord : List Bytes) (vs : Vars)
+    (hflat : ∀ n ∈ ord, ∀ p ∈ vs, Absent (refOf n) p.2) : closeVars ord vs = vs := by
+  unfold closeVars
+  induction ord with
+  | nil => rfl
+  | cons n ns ih =>
+    simp only [List.foldl_cons]
+    have step : closeStep vs n = vs := by
+      unfold closeStep
+      cases assocLookup n vs with
+      | none => rfl
+      | some r =>
+        simp only
+        calc vs.map (fun p => (p.1, replaceAll p.2 (refOf n) r)) = vs.map id := by
+              apply List.map_congr_left
+              intro p hp
+              simp only [id]
+              rw [replaceAll_absent p.2 (refOf n) r (hflat n (by simp) p hp)]
+          _ = vs := by simp
+    rw [step]
+    exact ih (fun m hm p hp => hflat m (by simp [hm]) p hp)
+
+/-- non-vacuity and the behaviours the property names: late definition, nested definition, undefined name -/
+example :
+    (expandDefinitions ["a".toList, "b".toList] ["a".toList, "b".toList] "x{{a}}y{{c}}\n".toList
+        [("a".toList, "1{{b}}".toList), ("b".toList, "2".toList)]).1 = "x12y{{c}}\n".toList ∧
+    (expandDefinitions ["b".toList, "a".toList] ["b".toList, "a".toList] "x{{a}}y{{c}}\n".toList
+        [("a".toList, "1{{b}}".toList), ("b".toList, "2".toList)]).1 = "x12y{{c}}\n".toList := by
+  decide
+
 end Crs.Props
